@@ -35,6 +35,10 @@ def bases():
         ("ze", D.E("X", [V("A", "unit", []), V("B", "tuple", [("0", "u16")]), V("C", "named", [("x", "u8"), ("y", "u64")])], ZC)),
         ("dg", D.S("X", [("a", "A"), ("n", "u32"), ("b", "B")], params=[P("A", "field"), P("B", "field")])),
         ("dc", D.S("X", [("arr", "[u8; N]"), ("t", "u16")], params=[P("N", "const")])),
+        # wide items: the hash streams are longer than 128 / 256 bytes and every field sits at a different offset of them
+        ("dw", D.S("X", [(f"f{i:02d}", "u32") for i in range(24)])),
+        ("zw", D.S("X", [(f"f{i:02d}", "u32") for i in range(24)], ZC)),
+        ("ew", D.E("X", [V(f"V{i:02d}", "tuple", [("0", "u32")]) for i in range(20)])),
         ("zc", D.S("X", [("arr", "[u8; N]"), ("t", "u16")], ZC, params=[P("N", "const")])),
     ]
 
@@ -149,6 +153,8 @@ def emit():
                 wr = list(WRAPPERS) + (ZWRAPPERS if d.zero else [])
                 if bname in ("dg",):
                     wr = ["{}", "Vec<{}>", "Option<{}>"]
+                if bname in ("dw", "zw", "ew"):
+                    wr = ["{}"]
                 for w in wr:
                     full = w.replace("{}", ty)
                     wl = w.replace("{}", "_").replace(" ", "")
